@@ -680,4 +680,148 @@ theorem bgvNew_ok {o : Oracle} {fuel : Nat} {a : Accepted} {t : Nat} {b : BgvAcc
                 refine ⟨ht0, by simpa using htq, by omega, ht.1, by omega, rfl, r2.1, ht.2,
                   r1.2.2.1, r1.2.1, r1.2.2.2, qmulLoop_avoid _ _ _ _ _ _ _ hgen⟩
 
+/-! ### ring construction and the scheme constructors as equivalences -/
+
+theorem firstSome_eq_none_iff {α β} (f : α → Option β) (l : List α) :
+    firstSome f l = none ↔ ∀ x ∈ l, f x = none :=
+  ⟨firstSome_none f l, firstSome_eq_none f l⟩
+
+theorem allDistinct_iff (l : List Nat) : allDistinct l = true ↔ l.Nodup :=
+  ⟨allDistinct_nodup l, nodup_allDistinct l⟩
+
+theorem subRingCheck_none_iff {o : Oracle} {n r m : Nat} :
+    subRingCheck o n r m = none ↔ n ≠ 0 ∧ m ≠ 0 ∧ o.isPrime m = true ∧ m &&& (r - 1) = 1 := by
+  unfold subRingCheck
+  by_cases hn : n = 0
+  · simp [hn]
+  · by_cases hm : m = 0
+    · simp [hn, hm]
+    · by_cases hp : o.isPrime m = true
+      · by_cases ha : m &&& (r - 1) = 1
+        · simp [hn, hm, hp, ha]
+        · simp [hn, hm, hp, ha]
+      · simp [hn, hm, hp]
+
+/-- **newRing_iff** — `ring.NewRingWithCustomNTT(N, moduli, ·, NthRoot)` succeeds exactly when `N ≥ 8` is a power of
+    two, the chain is non-empty and duplicate-free, and every modulus is a non-zero prime (for the oracle)
+    with `m & (NthRoot-1) = 1`. -/
+theorem newRing_iff {o : Oracle} {n r : Nat} {ms : List Nat} :
+    newRing o n ms r = none ↔
+      MinRingDegree ≤ n ∧ isPow2 n = true ∧ ms ≠ [] ∧ ms.Nodup ∧
+      ∀ m ∈ ms, m ≠ 0 ∧ o.isPrime m = true ∧ m &&& (r - 1) = 1 := by
+  constructor
+  · intro h
+    have base := newRing_none h
+    unfold newRing at h
+    split at h
+    · cases h
+    · rename_i hdeg
+      split at h
+      · cases h
+      · split at h
+        · cases h
+        · have hn0 : n ≠ 0 := by have := base.1; unfold MinRingDegree at this; omega
+          have hp2 : isPow2 n = true := by
+            cases hp : isPow2 n with
+            | true => rfl
+            | false =>
+              exfalso; apply hdeg
+              simp [hp, hn0]
+          refine ⟨base.1, hp2, base.2.1, base.2.2.1, ?_⟩
+          intro m hm
+          have := subRingCheck_none_iff.mp (firstSome_none _ _ h m hm)
+          exact ⟨this.2.1, this.2.2.1, this.2.2.2⟩
+  · intro ⟨h1, h2, h3, h4, h5⟩
+    unfold newRing
+    have hn0 : n ≠ 0 := by unfold MinRingDegree at h1; omega
+    have hdeg : (decide (n < MinRingDegree) || (!isPow2 n && n != 0)) = false := by
+      simp [h2]; omega
+    have hemp : ms.isEmpty = false := by
+      cases ms with
+      | nil => exact absurd rfl h3
+      | cons _ _ => rfl
+    rw [hdeg]
+    simp only [Bool.false_eq_true, if_false, hemp, (allDistinct_iff ms).mpr h4, Bool.not_true]
+    apply firstSome_eq_none
+    intro m hm
+    exact subRingCheck_none_iff.mpr ⟨hn0, (h5 m hm).1, (h5 m hm).2.1, (h5 m hm).2.2⟩
+
+/-- **ckks_decision** — `ckks.NewParametersFromLiteral` accepts exactly the literals the rlwe constructor
+    accepts with `LogDefaultScale ≤ 128` (nothing else is checked; negative values pass). -/
+theorem ckks_decision (o : Oracle) (fuel : Nat) (lit : Literal) (lds : Int) (a : Accepted) :
+    ckksNewFromLiteral o fuel lit lds = .ok a ↔
+      newParametersFromLiteral o fuel lit = .ok a ∧ lds ≤ 128 := by
+  unfold ckksNewFromLiteral
+  cases h : newParametersFromLiteral o fuel lit with
+  | ok b =>
+    by_cases hl : lds > 128
+    · simp only [hl, if_true]
+      constructor
+      · intro h; cases h
+      · intro ⟨_, h⟩; omega
+    · simp only [hl, if_false, Res.ok.injEq]
+      constructor
+      · intro h; exact ⟨h, by omega⟩
+      · intro ⟨h, _⟩; exact h
+  | err c => simp
+  | panic => simp
+  | hang => simp
+
+/-- **bgv_decision** — `bgv.NewParameters(rlweParams, t)` returns the parameter object `b` exactly when
+    `t ≠ 0`, `t ∉ Q`, `t ≤ Q[0]`, the auxiliary-basis generator returns `b.qMul` (61-bit downstream primes not
+    in Q) and these form a ring of degree `N`, the largest power of two `order` with `t ≡ 1 mod order` is at
+    least 16, and `b.nT = min(N, order/2)` is the degree of a ring with the single modulus `t`
+    (`newRing_iff`: `nT ≥ 8` a power of two, `t` a non-zero prime, `t & (2·nT − 1) = 1`). -/
+theorem bgv_decision (o : Oracle) (fuel : Nat) (a : Accepted) (t : Nat) (b : BgvAccepted) :
+    bgvNew o fuel a t = .ok b ↔
+      t ≠ 0 ∧ t ∉ a.q ∧ t ≤ a.q.headD 0 ∧
+      qmulLoop o fuel a.q ((len64 a.qProd + a.logN + 60) / 61 + a.q.length + 1)
+        ((len64 a.qProd + a.logN + 60) / 61) (newGen 61 a.nthRoot) = .ok b.qMul ∧
+      newRing o a.n b.qMul (2 * a.n) = none ∧
+      16 ≤ cyclotomicOrder t ∧ b.nT = min a.n (cyclotomicOrder t / 2) ∧
+      newRing o b.nT [t] (2 * b.nT) = none := by
+  constructor
+  · intro h
+    unfold bgvNew at h
+    split at h
+    · cases h
+    · rename_i ht0
+      split at h
+      · cases h
+      · rename_i htq
+        split at h
+        · cases h
+        · rename_i htb
+          dsimp only at h
+          split at h
+          · cases h
+          · cases h
+          · cases h
+          · rename_i primes hgen
+            split at h
+            · cases h
+            · rename_i hqm
+              split at h
+              · cases h
+              · rename_i hord
+                split at h
+                · cases h
+                · rename_i hrt
+                  injection h with h
+                  subst h
+                  exact ⟨ht0, by simpa using htq, by omega, hgen, hqm, by omega, rfl, hrt⟩
+  · intro ⟨h1, h2, h3, h4, h5, h6, h7, h8⟩
+    unfold bgvNew
+    have hc : a.q.contains t = false := by simpa using h2
+    have hb : ¬ (t > a.q.headD 0) := by omega
+    have ho : ¬ (cyclotomicOrder t < 16) := by omega
+    rw [h7] at h8
+    simp only [h1, if_false, hc, Bool.false_eq_true, hb]
+    rw [h4]
+    simp only [h5, ho, if_false, h8]
+    cases b with
+    | mk nT qMul =>
+      simp only at h7
+      rw [h7]
+
 end Lattigo.Params
